@@ -203,6 +203,28 @@ CLAIMED = {
              'the loader\'s four steps (read off the source on every run). All theorems closed under the global context.',
         technique='Coq invariant proof over sequences of runs of a cache-slot model + schedule-level model of the patched global (serial schedules proved, a racing schedule refuted by vm_compute) + differential correspondence with real interpreter runs',
         design='5/C16'),
+    'C11': dict(
+        text='Machine-checked (Coq 8.16.1), PARTIAL. Proved: (1) over the class table regenerated on every run from '
+             'beartype.roar and from every raise statement under beartype/: every exported class is a BeartypeException or a '
+             'BeartypeWarning and none is underscore-prefixed, BeartypeDecor*/BeartypeCall*/BeartypeDoor* exceptions and '
+             '*Violation classes sit under their roots, no class is both decoration-time and call-time, every class raised by '
+             'name is a BeartypeException, none is a TypeError in disguise, builtin exceptions are raised by name only within '
+             'an audited per-class budget of protocol-mandated sites; (2) for every object as the abstraction sees it (PEP '
+             'hint supported or not, class instance-checkable or not, tuple of anything, anything else) the tester is_hint and '
+             'the raiser die_unless_hint agree and the raiser raises only the public class its caller named or one of two fixed '
+             'public decoration-time classes; (3) callable_cached is observationally the function it wraps for every history of '
+             'calls, hashable or not, including functions that raise TypeError themselves and BaseExceptions; (4) the stages of '
+             'decoration, is_bearable, die_if_unbearable and a decorated call raise only public beartype exceptions of the right '
+             'phase, the violation, or the very exception object user code raised, and a passing check returns the body\'s own '
+             'outcome unchanged. NOT proved (decided on the implementation only, by a generator of malformed hints through 12 '
+             'entry points judged by the model\'s phase_ok over the same class table): malformed children of subscripted '
+             'hints, the DOOR wrappers, the error path. That generator found F31-F33 (repaired) and F34-F37 (recorded).',
+        note='Trusted: Coq kernel; the exctree.py translator (class table, raise-statement scan by ast); the abstraction '
+             'function from Python objects to the model\'s jhint (harness/impl/c11_impl.py:abstract, which calls '
+             'beartype\'s own is_hint_pep / is_hint_pep_supported); warnings.warn wrapped to learn the real emitter. '
+             'All theorems closed under the global context.',
+        technique='Coq proofs (finite taxonomy facts by vm_compute over a regenerated class table; decision-procedure agreement; memo transparency by induction over call histories with an invariant; stage case analyses) + differential correspondence + generator of malformed hints judged by the model',
+        design='5/C11'),
     'C13': dict(
         text='Machine-checked (Coq 8.16.1) over a model of class dictionaries (plain, class, static and property members, '
              'pre-decorated and @no_type_check callables, nested and foreign classes, data): decorating a class is '
